@@ -140,8 +140,12 @@ _FLOATS = st.one_of(st.floats(allow_nan=False, allow_infinity=False),
                     st.integers(-1000, 1000).map(float))
 _DATES = st.dates(min_value=dt.date(1, 1, 1), max_value=dt.date(9999, 12, 31))
 _TIMES = st.times().map(lambda t: t.replace(microsecond=0, tzinfo=None))
-_DATETIMES = st.datetimes(min_value=dt.datetime(1000, 1, 1), max_value=dt.datetime(9999, 12, 31, 23, 59, 59)) \
+_DATETIMES = st.datetimes(min_value=dt.datetime(1, 1, 1), max_value=dt.datetime(9999, 12, 31, 23, 59, 59)) \
     .map(lambda d: d.replace(microsecond=0))
+# years before 1000 have to be written with four digits
+_DATETIMES = st.one_of(_DATETIMES, _DATETIMES, _DATETIMES,
+                       st.sampled_from([dt.datetime(999, 12, 31, 23, 59, 59), dt.datetime(1, 1, 1, 0, 0, 0),
+                                        dt.datetime(476, 9, 4, 12, 0, 0)]))
 _TUPLE_MEMBER = st.one_of(st.text(alphabet=string.ascii_letters + string.digits + "._- ", min_size=1, max_size=5)
                           .map(lambda s: s.strip() or "t"),
                           st.sampled_from(["a,b", "Smith, John", 'say "x"', "it's", "[x]", "a, b,c", '"', ",", "ä,ö",
